@@ -12,13 +12,18 @@ Definition model : input -> observed := run_hist.
 
 Import C08_spec.
 
-(* the client is authenticated the way it is registered: a confidential client by its secret,
-   a public client (auth method none) by naming itself *)
+(* the client is authenticated: the storage accepted the secret presented for it, or a
+   private_key_jwt client presented a verified assertion *)
 Definition client_ok (cl : list client) (c : cred) : bool :=
-  let (i, s) := cred_pair c in
-  match c, find_client cl i with
-  | NoCred, _ | _, None => false
-  | _, Some k => match c_auth k with AMNone => true | _ => String.eqb (c_secret k) s end
+  match c with
+  | NoCred | Assertion None _ => false
+  | Assertion (Some x) _ =>
+      match find_client cl x with Some k => match c_auth k with AMPkjwt => true | _ => false end | None => false end
+  | Basic i s | Post i s | Both i s _ =>
+      match find_client cl i with
+      | None => false
+      | Some k => String.eqb (c_secret k) s      (* the storage accepted the secret *)
+      end
   end.
 
 (* the subject a presented token speaks for *)
@@ -51,7 +56,7 @@ Definition contained (want : trec) (issued : ttype) (access : xtok) (rt : sid) (
   | TAccess => at_ok
   | TRefresh => at_ok && match rt with RT _ => rt_live | _ => false end
   | TId => match access with
-           | XIdTok sub azp => String.eqb azp (tr_client want) && (String.eqb sub (tr_sub want) || String.eqb sub "")
+           | XIdTok sub azp => String.eqb azp (tr_client want) && String.eqb sub (tr_sub want)
            | _ => false
            end
   | _ => false
@@ -61,7 +66,12 @@ Definition contained (want : trec) (issued : ttype) (access : xtok) (rt : sid) (
    the declared types, an issuable (or absent) requested type, no veto *)
 Definition promised (cl : list client) (g : store) (c : cred) (subj : tokstr) (styp : ttype)
     (actor : option (tokstr * ttype)) (req : ttype) (scopes : list string) : bool :=
-  match c with Basic i s => nonempty i && sec_ok cl i s | _ => false end
+  match c with
+  | Basic i s | Both i s _ =>
+      nonempty i && sec_ok cl i s
+      && match find_client cl i with Some k => match c_auth k with AMBasic | AMPost => true | _ => false end | None => false end
+  | _ => false
+  end
   && subj_live g styp subj && actor_live g actor && issuable req && negb (string_in "veto" scopes).
 
 Definition is_error (st : status) : bool :=
